@@ -12,6 +12,15 @@ import RvModel.Hand.Mixture
     mix.gauss.{mean,variance}         - <W> <G>              ↦ N | S f64
     mix.pois.{ln_f,f,cdf,pmf,ln_pmf}  - <W> <P> <x:nat(u32)> ↦ f64 ;  .supports ↦ T|F ;  .{mean,variance} - <W> <P>
     mix.bern.{ln_f,f,cdf,pmf,ln_pmf}  - <W> <B> <x:T|F>      ↦ f64 ;  .supports ↦ T|F ;  .{mean,variance} - <W> <B>
+    mix.pareto.* / mix.unif.*         - <W> L<k> (shape scale)* / L<k> (a b)*  <x:f64>   same eight queries as mix.gauss.*
+    mix.cat.{pmf,ln_pmf,supports,ln_f,f,cdf} - <W> L<k> (L<n> ln_w…)* <x:nat>   (ln_f/f/cdf panic in Rust when some
+                                        component has x ≥ n: only ask them for x below every n)
+    mix.gauss.entropy                 - <W> <G>              ↦ f64 | PANIC      (model of the quadrature entropy)
+    mix.gauss.quad_bounds             - <W> <G>              ↦ lower upper | PANIC
+    mix.gauss.entropy_b               - <W> <G> <lower> <upper> ↦ f64 | PANIC   (model only: the entropy with the given
+                                        integration bounds — feed the implementation's quad_bounds)
+    mix.moments                       - <W> L<k> (N | S mean)* L<k> (N | S var)* ↦ <opt mean> <opt variance>
+                                        (model only: mixture moments from component moments; oracle of mix.f32.moments)
     mix.new             - <W> <k>                 ↦ <W> <k>  |  E:<Variant>         (k tagged components)
     mix.uniform         - <k>                     ↦ <W> <k>  |  E:<Variant>
     mix.set_weights     - <W0> <k> <W1>           ↦ U <W after> | E:<Variant> <W after>   (start: new_unchecked(W0, k comps))
@@ -36,6 +45,12 @@ def rdGauss : Rd (List (Gen.Gaussian Float)) := rdL GenDispatch.rd_Gaussian
 def rdPois : Rd (List (Gen.Poisson Float)) := rdL GenDispatch.rd_Poisson
 def rdBern : Rd (List (Gen.Bernoulli Float)) := rdL GenDispatch.rd_Bernoulli
 
+def rdParMix : Rd (Mix Float Float) := do
+  let w ← rdL rdF; let g ← rdL GenDispatch.rd_Pareto; pure ⟨w, g.map paretoComp⟩
+def rdUniMix : Rd (Mix Float Float) := do
+  let w ← rdL rdF; let g ← rdL GenDispatch.rd_Uniform; pure ⟨w, g.map unifComp⟩
+def rdCatMix : Rd (Mix Float Nat) := do
+  let w ← rdL rdF; let g ← rdL GenDispatch.rd_Categorical; pure ⟨w, g.map catComp⟩
 def rdGMix : Rd GMix := do
   let w ← rdL rdF; let g ← rdGauss; pure ⟨w, g.map gaussComp⟩
 def rdPMix : Rd (Mix Float Nat) := do
@@ -76,7 +91,29 @@ def wrIdx : Option Nat → String
 def tableC11 : List (String × Rd String) :=
   queries "mix.gauss." "pdf" rdGMix rdF ++
   queries "mix.pois." "pmf" rdPMix rdN ++
-  queries "mix.bern." "pmf" rdBMix rdB ++ [
+  queries "mix.bern." "pmf" rdBMix rdB ++
+  queries "mix.pareto." "pdf" rdParMix rdF ++
+  queries "mix.unif." "pdf" rdUniMix rdF ++
+  queries "mix.cat." "pmf" rdCatMix rdN ++ [
+  ("mix.gauss.entropy", do
+    let _ ← Wire.next; let w ← rdL rdF; let g ← rdGauss
+    pure (match entropyQuad w (g.map gaussQComp) with
+      | none => "PANIC"
+      | some h => wrF h)),
+  ("mix.gauss.quad_bounds", do
+    let _ ← Wire.next; let w ← rdL rdF; let g ← rdGauss
+    pure (match quadBounds w (g.map gaussQComp) with
+      | none => "PANIC"
+      | some b => wrF b.1 ++ " " ++ wrF b.2)),
+  ("mix.gauss.entropy_b", do
+    let _ ← Wire.next; let w ← rdL rdF; let g ← rdGauss; let lo ← rdF; let hi ← rdF
+    pure (match entropyQuadB w (g.map gaussQComp) (some (lo, hi)) with
+      | none => "PANIC"
+      | some h => wrF h)),
+  ("mix.moments", do
+    let _ ← Wire.next; let w ← rdL rdF; let ms ← rdL (rdO rdF); let vs ← rdL (rdO rdF)
+    let m : Mix Float Unit := ⟨w, (ms.zip vs).map (fun p => momentComp p.1 p.2)⟩
+    pure (wrO wrF (mean m) ++ " " ++ wrO wrF (variance m))),
   ("mix.new", do
     let _ ← Wire.next; let w ← rdL rdF; let k ← rdN
     pure (wrE wrMixK (new w (stdTags k)))),
